@@ -448,6 +448,11 @@ def shape(fn, calls, variables=(), start=0, end=None, fields=("uid", "euid")):
     return [t for _, t in items]
 
 
+def relevant(items, keep):
+    """only the statements of a shape that matter: a harmless change elsewhere in the function leaves the obligation alone"""
+    return [t for t in items if any(k in t for k in keep)]
+
+
 def lean_shape(name, doc, items):
     return "/-- %s -/\ndef %s : List String := [\n  " % (doc, name) + ",\n  ".join(lean_str(t) for t in items) + "]"
 
@@ -457,6 +462,274 @@ def first_call(fn, callee):
     if not offs:
         raise TieBroken("shape:" + callee, "call of %s not found" % callee)
     return offs[0]
+
+
+
+# ---- round 6: decision trees.  A function of the uid machinery is executed symbolically over its clang AST: every path
+# through its if-statements ends in a leaf that lists, in order, the writes to the tracked lvalues (with the canonical
+# right-hand side), the value handed back to LPC, the master applies asked on the way and how the path ends.  The result is
+# a Lean function of the Boolean atoms of the conditions; NV/C20/Tie.lean proves it equal to what the model does.  Statements
+# without tracked effects (logging, reference counting, assertions) do not appear, so harmless refactorings leave the tree
+# (and the obligations) unchanged, while a changed condition, operand or statement order changes it.
+
+class Sym:
+    def __init__(self, name, atoms, tracked, params, results=(), leaving=("error", "bad_arg"), effects=(), variables=(), static=None):
+        self.name, self.atoms, self.tracked, self.params = name, atoms, tracked, params
+        self.results, self.leaving, self.effects, self.variables = results, leaving, effects, variables
+        self.static = static or (lambda cond_text, state: None)
+
+    def has_effect(self, n):
+        for m, _ in walk(n):
+            k = m.get("kind")
+            if k == "ReturnStmt":
+                return True
+            if k == "CallExpr" and kids(m):
+                c = cx(kids(m)[0])
+                if c in self.leaving or c in self.effects or c in ("apply_master_ob", "safe_apply_master_ob", "apply", "safe_apply"):
+                    return True
+            if k in ("BinaryOperator", "CompoundAssignOperator") and m.get("opcode", "").endswith("=") and \
+                    m.get("opcode") not in ("==", "!=", "<=", ">="):
+                l = cx(kids(m)[0])
+                if l in self.tracked or l in self.results or l in self.variables:
+                    return True
+        return False
+
+    def cond(self, n, state):
+        atoms = dict(self.atoms)
+        last = state["asked"][-1] if state["asked"] else ""
+        for k, v in list(self.atoms.items()):
+            if "@" in k:
+                base, ap = k.split("@", 1)
+                if ap == last:
+                    atoms[base] = v
+        for var, val in state["vars"].items():
+            atoms.setdefault(var, None)
+        return tr(n, {k: v for k, v in atoms.items() if v is not None}, self.name)
+
+    def leaf(self, state, how):
+        return "{ writes := [%s], res := %s, asked := %s, exit := %s }" % (
+            ", ".join("(%s, %s)" % (lean_str(a), lean_str(b)) for a, b in state["writes"]),
+            lean_str(state["res"]), lean_list(state["asked"]), lean_str(how))
+
+    def rhs(self, n, state):
+        t = cx(n)
+        for var, val in state["vars"].items():
+            if val is not None:
+                t = re.sub(r"(?<![>.\w])%s\b" % re.escape(var), "<%s>" % val, t)
+        return t
+
+    def effects_of(self, n, state):
+        """apply the tracked effects of one expression statement, in source order; returns a leaf text when the
+        statement leaves the function"""
+        evs = []
+        for m, path in walk(n):
+            k = m.get("kind")
+            if k == "CallExpr" and kids(m):
+                c = cx(kids(m)[0])
+                if c in ("apply_master_ob", "safe_apply_master_ob", "apply", "safe_apply"):
+                    evs.append((off(m), "ask", (c, cx(kids(m)[1]).strip('"') if len(kids(m)) > 1 else "?")))
+                elif c in self.leaving:
+                    evs.append((off(m) + 10 ** 9, "leave", c))       # after the effects of its own arguments
+                elif c in self.effects:
+                    evs.append((off(m), "effect", m))
+            elif k in ("BinaryOperator", "CompoundAssignOperator") and m.get("opcode", "").endswith("=") and \
+                    m.get("opcode") not in ("==", "!=", "<=", ">="):
+                l = cx(kids(m)[0])
+                if l in self.tracked or l in self.results or l in self.variables:
+                    evs.append((off(m) + 10 ** 8, "assign", m))        # after the calls inside its right-hand side
+        evs.sort(key=lambda e: e[0])
+        for _, kind, x in evs:
+            if kind == "ask":
+                state["asked"].append(x[1] if x[0] == "apply_master_ob" else x[0] + ":" + x[1])
+            elif kind == "effect":
+                state["writes"].append((cx(kids(x)[0]), self.rhs(x, state)))
+            elif kind == "assign":
+                self.seen.add(off(x))
+                l = cx(kids(x)[0])
+                if x.get("kind") == "CompoundAssignOperator":
+                    r = "%s %s" % (x.get("opcode"), self.rhs(kids(x)[1], state))
+                else:
+                    r = self.rhs(kids(x)[1], state)
+                if l in self.variables:
+                    rn = strip(kids(x)[1])
+                    state["vars"][l] = self.variables[l](rn, r)
+                elif l in self.results:
+                    state["res"] = r
+                else:
+                    state["writes"].append((l, r))
+            elif kind == "leave":
+                return self.leaf(state, "error:" + x)
+        return None
+
+    def run(self, stmts, state):
+        import copy
+        while stmts:
+            s, stmts = stmts[0], stmts[1:]
+            k = s.get("kind")
+            if k == "CompoundStmt":
+                stmts = kids(s) + stmts
+                continue
+            if k in ("NullStmt",):
+                continue
+            if k == "DeclStmt":
+                for d in kids(s):
+                    if d.get("kind") == "VarDecl" and d.get("name") in self.variables and kids(d):
+                        init = kids(d)[-1]
+                        state["vars"][d["name"]] = self.variables[d["name"]](strip(init), cx(init))
+                    elif d.get("kind") == "VarDecl" and kids(d) and self.has_effect(kids(d)[-1]):
+                        out = self.effects_of(kids(d)[-1], state)
+                        if out:
+                            return out
+                continue
+            if k == "ReturnStmt":
+                if kids(s):
+                    out = self.effects_of(kids(s)[0], state)
+                    if out:
+                        return out
+                    if "<return>" in self.results:
+                        state["res"] = cx(kids(s)[0])
+                return self.leaf(state, "return")
+            if k == "IfStmt":
+                pk = kids(s)
+                c, th, el = pk[0], pk[1], (pk[2] if len(pk) > 2 else None)
+                ct = cx(c)
+                if any(x in ct for x in NOISE) or not (self.has_effect(th) or (el is not None and self.has_effect(el)) or self.has_effect(c)):
+                    continue                                        # logging, assertions, reference counting
+                st = self.static(ct, state)
+                if st is True:
+                    stmts = [th] + stmts
+                    continue
+                if st is False:
+                    stmts = ([el] if el is not None else []) + stmts
+                    continue
+                if self.has_effect(c):
+                    out = self.effects_of(c, state)
+                    if out:
+                        return out
+                ce = self.cond(c, state)
+                a = self.run([th] + stmts, copy.deepcopy(state))
+                b = self.run(([el] if el is not None else []) + stmts, copy.deepcopy(state))
+                return "(if %s then %s else %s)" % (ce, a, b) if a != b else a
+            if k in ("WhileStmt", "ForStmt", "DoStmt", "SwitchStmt", "GotoStmt", "LabelStmt"):
+                if self.has_effect(s):
+                    raise TieBroken("tree:" + self.name, "a %s with uid effects in %s: outside the translator's grammar" % (k, self.name))
+                continue
+            out = self.effects_of(s, state)
+            if out:
+                return out
+        return self.leaf(state, "end")
+
+    def lean(self, fn, doc):
+        body = [c for c in kids(fn) if c.get("kind") == "CompoundStmt"][0]
+        self.seen = set()
+        t = self.run([body], {"writes": [], "res": "", "asked": [], "vars": {}})
+        # every write to a tracked lvalue must lie on a path of the tree (none hidden in a loop, a switch, a condition)
+        for m, _ in walk(fn):
+            if m.get("kind") in ("BinaryOperator", "CompoundAssignOperator") and m.get("opcode", "").endswith("=") and \
+                    m.get("opcode") not in ("==", "!=", "<=", ">=") and cx(kids(m)[0]) in self.tracked and off(m) not in self.seen:
+                raise TieBroken("tree:" + self.name, "the write `%s` is on no path of the decision tree of %s" % (cx(m), self.name))
+            if m.get("kind") == "UnaryOperator" and m.get("opcode") in ("++", "--", "&") and kids(m) and cx(kids(m)[0]) in self.tracked:
+                raise TieBroken("tree:" + self.name, "`%s` (increment / address of a uid field) in %s" % (cx(m), self.name))
+        return "/-- %s -/\ndef %s (%s : Bool) : Leaf :=\n  %s" % (doc, self.name, " ".join(self.params), t)
+
+
+def generate_round6(bdir, t_number, t_string, ms_limbo, o_destructed, XXV):
+    L = []
+    L.append("/-- end of one path through a function: the writes to the tracked lvalues in order (lvalue, canonical right-hand\n"
+             "    side; `<answer>` = the string creator_file returned), the value handed back, the master applies asked on the way,\n"
+             "    how the path ends (`return`, `end`, `error:<callee>`) -/\n"
+             "structure Leaf where\n  writes : List (String × String)\n  res : String\n  asked : List String\n  exit : String\n"
+             "  deriving DecidableEq, Repr")
+
+    # give_uid_to_object
+    def gu_static(ct, state):
+        if ct == "!creator_name":
+            v = state["vars"].get("creator_name")
+            return v is None
+        return None
+
+    def cn_value(rn, text):
+        if rn.get("kind") == "StringLiteral":
+            return "lit:" + rn["value"].strip('"')
+        if text == "ret->u.string":
+            return "answer"
+        if text in ("0", "NULL"):
+            return None
+        return "other:" + text
+    f = ast_function(bdir, "src/simulate.c", "give_uid_to_object")
+    sym = Sym("giveUidTree",
+              {"(get_machine_state() < %d)" % ms_limbo: "preMaster", "ret==-1": "noMaster", "ret": "ret",
+               "ret->type==%d" % t_string: "retString", "current_object": "cur", "current_object->uid": "curUid",
+               "strcmp(current_object->uid->name, creator_name)": "uidDiffers", "backbone_uid": "bbSet",
+               "current_object->euid": "curEuid", "strcmp(backbone_uid->name, creator_name)": "bbDiffers"},
+              tracked=("ob->uid", "ob->euid"),
+              params=("preMaster", "noMaster", "ret", "retString", "cur", "curUid", "uidDiffers", "bbSet", "curEuid", "bbDiffers"),
+              leaving=("error",), effects=("destruct_object",), variables={"creator_name": cn_value}, static=gu_static)
+    L.append(sym.lean(f, "give_uid_to_object as a decision tree (preMaster: get_machine_state() < MS_MUDLIB_LIMBO; noMaster: the apply\n"
+                         "    found no master; ret / retString: creator_file returned something / a string; cur: current_object != 0; curUid,\n"
+                         "    curEuid: its uid / euid != NULL; uidDiffers / bbDiffers: strcmp of its uid name / the backbone uid name with the\n"
+                         "    creator name != 0; bbSet: backbone_uid != NULL)"))
+
+    # f_seteuid
+    f = ast_function(bdir, "lib/efuns/uids.c", "f_seteuid")
+    sym = Sym("seteuidTree",
+              {"(sp->type & %d)" % t_number: "argIsNumber", "sp->u.number": "argNonZero", "ret==-1": "noMaster", "ret": "ret",
+               "ret->type==%d" % t_number: "isNumber", "ret->u.number": "number"},
+              tracked=("current_object->euid",), params=("argIsNumber", "argNonZero", "noMaster", "ret", "isNumber", "number"),
+              results=("*sp", "sp->u.number"))
+    L.append(sym.lean(f, "f_seteuid as a decision tree (argIsNumber / argNonZero: the argument; noMaster, ret, isNumber, number: the svalue\n"
+                         "    valid_seteuid returned, as in `seteuidRefuses`)"))
+
+    # f_export_uid
+    f = ast_function(bdir, "lib/efuns/uids.c", "f_export_uid")
+    sym = Sym("exportTree", {"current_object->euid": "curEuid", "ob->euid": "tgtEuid"}, tracked=("ob->uid", "ob->euid", "current_object->uid", "current_object->euid"),
+              params=("curEuid", "tgtEuid"), results=("*sp",), leaving=("error",))
+    L.append(sym.lean(f, "f_export_uid as a decision tree (curEuid: caller's euid != NULL; tgtEuid: target's euid != NULL)"))
+
+    # reload_object
+    f = ast_function(bdir, "lib/lpc/object.c", "reload_object")
+    sym = Sym("reloadTree", {"obj->prog": "hasProg"}, tracked=("obj->uid", "obj->euid"), params=("hasProg",),
+              effects=("call_create",), leaving=())
+    L.append(sym.lean(f, "reload_object as a decision tree: the euid reset and then create()"))
+
+    # set_master
+    def uid_value(rn, text):
+        if text in ("0", "NULL"):
+            return None
+        return "root-answer" if text == "ret->u.string" else "other:" + text
+
+    def sm_static(ct, state):
+        if ct == "uid":
+            return state["vars"].get("uid") is not None
+        return None
+    f = ast_function(bdir, "src/simulate.c", "set_master")
+    sym = Sym("setMasterTree",
+              {"ob": "obSet", "(ob->flags & %d)" % o_destructed: "obDestructed", "(master_ob = ob)": "obSet", "first_load": "firstLoad",
+               "ret@get_root_uid": "rootRet", "ret->type==%d@get_root_uid" % t_string: "rootIsString",
+               "ret@get_bb_uid": "bbRet", "ret->type==%d@get_bb_uid" % t_string: "bbIsString"},
+              tracked=("master_ob->uid", "master_ob->euid"),
+              params=("obSet", "obDestructed", "firstLoad", "rootRet", "rootIsString", "bbRet", "bbIsString"),
+              effects=("set_backbone_uid",), leaving=("error",), variables={"uid": uid_value}, static=sm_static)
+    L.append(sym.lean(f, "set_master as a decision tree (firstLoad: no master before; rootRet / rootIsString, bbRet / bbIsString: what\n"
+                         "    get_root_uid() / get_bb_uid() returned)"))
+    # f_bind
+    f = ast_function(bdir, "lib/lpc/operator.c", "f_bind")
+    fpl = XXV["fpLocal"]; fnb = XXV["fpNotBindable"]
+    sym = Sym("bindTree",
+              {"ob==old_fp->hdr.owner": "sameOwner", "old_fp->hdr.type==(%d | %d)" % (fpl, fnb): "localFn",
+               "(old_fp->hdr.type & %d)" % fnb: "notBindable", "res==-1": "noMaster", "res": "res",
+               "res->type==%d" % t_number: "isNumber", "res->u.number": "number"},
+              tracked=("new_fp->hdr.owner",), params=("sameOwner", "localFn", "notBindable", "noMaster", "res", "isNumber", "number"),
+              leaving=("error",))
+    L.append(sym.lean(f, "f_bind as a decision tree (sameOwner: the new owner already owns the function; localFn / notBindable: the\n"
+                         "    two unbindable kinds; noMaster, res, isNumber, number: the svalue valid_bind returned)"))
+    # load_virtual_object
+    f = ast_function(bdir, "src/simulate.c", "load_virtual_object")
+    sym = Sym("loadVirtualTree", {"(get_machine_state() < %d)" % ms_limbo: "preMaster", "v": "v", "v->type==%d" % XXV["tObject"]: "isObject"},
+              tracked=("ob->uid", "ob->euid", "v->u.ob->uid", "v->u.ob->euid"), params=("preMaster", "v", "isObject"),
+              results=("<return>",), effects=("give_uid_to_object", "init_object"), leaving=("error",))
+    L.append(sym.lean(f, "load_virtual_object as a decision tree: master compile_object, an object or nothing; no uid is given"))
+    return L
 
 
 def generate_round5(bdir):
@@ -549,40 +822,26 @@ def generate_round5(bdir):
     L.append("/-- functions that read the fields without writing them -/\n"
              "def uidReaders : List (String × String) := [" + ", ".join("(%s, %s)" % (lean_str(a), lean_str(b)) for a, b in readers) + "]")
 
-    # ---- interleaved shapes -----------------------------------------------------------------------------------------
-    f = ast_function(bdir, "lib/efuns/uids.c", "f_seteuid")
-    L.append(lean_shape("seteuidShape", "f_seteuid: conditions, calls, euid writes and returns in ONE source-ordered list",
-                        shape(f, {"apply_master_ob": True, "safe_apply_master_ob": True, "apply": True, "safe_apply": True,
-                                  "bad_arg": False, "push_object": True})))
-    f = ast_function(bdir, "lib/efuns/uids.c", "f_export_uid")
-    L.append(lean_shape("exportShape", "f_export_uid: conditions, error, uid writes in one source-ordered list",
-                        shape(f, {"error": True}, variables=("ob",))))
-    f = ast_function(bdir, "src/simulate.c", "set_master")
-    L.append(lean_shape("setMasterShape", "set_master: first load / reload branches, get_root_uid / get_bb_uid applies, uid = euid writes",
-                        shape(f, {"apply_master_ob": True, "safe_apply_master_ob": True, "set_backbone_uid": True,
-                                  "error": True}, variables=("first_load", "uid"))))
-    f = ast_function(bdir, "lib/lpc/object.c", "reload_object")
-    L.append(lean_shape("reloadShape", "reload_object: the euid reset and the create() call (tail of the function)",
-                        shape(f, {"call_create": True, "apply": True}, start=first_call(f, "remove_all_call_out"))))
+    # ---- statement order where the tree translation does not reach (only the statements that matter are kept) -----------
     f = ast_function(bdir, "src/simulate.c", "load_object")
-    L.append(lean_shape("loadTailShape", "load_object from get_empty_object to call_create: default uid BEFORE enter_object_hash, "
-                        "valid_object, init_object (= give_uid_to_object), then create()",
-                        shape(f, {"get_empty_object": False, "enter_object_hash": True, "apply_master_ob": True,
-                                  "safe_apply_master_ob": True, "destruct_object": True, "error": False, "init_object": True,
-                                  "give_uid_to_object": True, "call_create": True},
-                              start=first_call(f, "get_empty_object"), end=first_call(f, "call_create"))))
+    L.append(lean_shape("loadTailShape", "load_object from get_empty_object to call_create, the statements that matter: default uid BEFORE "
+                        "enter_object_hash, valid_object, init_object (= give_uid_to_object), then create()",
+                        relevant(shape(f, {"get_empty_object": False, "enter_object_hash": True, "apply_master_ob": True,
+                                           "safe_apply_master_ob": True, "destruct_object": True, "error": False, "init_object": True,
+                                           "give_uid_to_object": True, "call_create": True},
+                                       start=first_call(f, "get_empty_object"), end=first_call(f, "call_create")),
+                                 ("get_empty_object", "uid", "enter_object_hash", "apply_master_ob", "mret", "init_object",
+                                  "give_uid_to_object", "call_create", "get_machine_state"))))
     f = ast_function(bdir, "src/simulate.c", "clone_object")
-    L.append(lean_shape("cloneShape", "clone_object: tests, find_or_load_object, virtual branch, make_new_name, init_object, "
-                        "enter_object_hash, create() in source order",
-                        shape(f, {"error": True, "find_or_load_object": True, "object_visible": True, "load_virtual_object": True,
-                                  "get_empty_object": False, "make_new_name": True, "init_object": True,
-                                  "give_uid_to_object": True, "enter_object_hash": True, "call_create": True})))
-    f = ast_function(bdir, "lib/lpc/operator.c", "f_bind")
-    L.append(lean_shape("bindShape", "f_bind: same owner = nothing to do; bindability; master valid_bind (non-catching apply, 3 arguments: "
-                        "doer, old owner, new owner); refusal iff !MASTER_APPROVED = error; only then the new owner is set",
-                        [t for t in shape(f, {"apply_master_ob": True, "safe_apply_master_ob": True, "apply": True, "error": True},
-                                          fields=("owner",))
-                         if "func_ref" not in t and "hdr.args" not in t]))
+    L.append(lean_shape("cloneShape", "clone_object, the statements that matter: euid tests, find_or_load_object, virtual branch "
+                        "(load_virtual_object, make_new_name, enter_object_hash), make_new_name, init_object, enter_object_hash, "
+                        "create() in source order",
+                        relevant(shape(f, {"error": True, "find_or_load_object": True, "load_virtual_object": True,
+                                           "get_empty_object": False, "make_new_name": True, "init_object": True,
+                                           "give_uid_to_object": True, "enter_object_hash": True, "call_create": True}),
+                                 ("euid", "effective UID", "find_or_load_object", "load_virtual_object", "get_empty_object",
+                                  "make_new_name", "init_object", "give_uid_to_object", "enter_object_hash", "call_create",
+                                  "strrchr", "ob->ref"))))
     # ---- make_new_name: the clone counter (`cloneSeq`) -----------------------------------------------------------------
     f = ast_function(bdir, "src/simulate.c", "make_new_name")
     items = []
@@ -602,14 +861,12 @@ def generate_round5(bdir):
                         [t for _, t in items]))
     # ---- destruct_object: the simul_efun refusal and the vital-object branch (master reload) ------------------------------
     f = ast_function(bdir, "src/simulate.c", "destruct_object")
-    keep = ("master_ob", "simul_efun_ob", "vital_obj_name", "new_ob")
-    sh = [t for t in shape(f, {"set_master": True, "set_simul_efun": True, "error": True}, variables=("new_ob", "vital_obj_name"))
-          if "config_str" not in t]
-    L.append(lean_shape("destructVitalShape", "destruct_object: what concerns the master / simul_efun object - the refusal to destruct the "
+    sh = shape(f, {"set_master": True, "set_simul_efun": True, "error": True}, variables=("new_ob",))
+    L.append(lean_shape("destructVitalShape", "destruct_object, only what concerns the master / simul_efun object: the refusal to destruct the "
                         "simul_efun object while a master exists, the reload of a vital object through load_object (on behalf of the "
                         "caller: its euid test) followed by set_master / set_simul_efun",
-                        [t for t in sh if any(x in t for x in keep) or t.startswith(("load_object", "set_master", "set_simul_efun"))
-                         or "Cannot destruct simul_efun" in t or "vital object" in t]))
+                        relevant(sh, ("(ob == simul_efun_ob) && master_ob", "Cannot destruct simul_efun", "= load_object(", "set_master(",
+                                      "set_simul_efun("))))
     # ---- error texts the model renders (canonical form of the harness: newline dropped, blanks -> `_`) ---------------------
     def err_text(relsrc, fn, needle):
         ff = ast_function(bdir, relsrc, fn)
@@ -632,9 +889,6 @@ def generate_round5(bdir):
     f = ast_function(bdir, "src/simulate.c", "init_object")
     L.append(lean_shape("initObjectShape", "init_object: nothing but give_uid_to_object",
                         shape(f, {"give_uid_to_object": True})))
-    f = ast_function(bdir, "src/simulate.c", "load_virtual_object")
-    L.append(lean_shape("loadVirtualShape", "load_virtual_object: compile_object apply, object or nothing; no uid is given",
-                        shape(f, {"apply_master_ob": True, "safe_apply_master_ob": True, "give_uid_to_object": True, "init_object": True})))
     return L
 
 
@@ -753,4 +1007,9 @@ def generate(bdir, t_number):
     L.append("/-- give_uid_to_object: conditions, uid/euid/creator_name assignments and returns in source order -/\n"
              "def giveUidShape : List String := [\n  " + ",\n  ".join(lean_str(t) for _, t in items) + "]")
     L += generate_round5(bdir)
+    import nvlib.extract as XX
+    vals = XX.probe_values(bdir, [("tString", "T_STRING"), ("ms", "MS_MUDLIB_LIMBO"), ("od", "O_DESTRUCTED"), ("tObject", "T_OBJECT"),
+                                  ("fpLocal", "FP_LOCAL"), ("fpNotBindable", "FP_NOT_BINDABLE")],
+                           ["lpc/types.h", "lpc/object.h", "lpc/include/function.h", "src/simulate.h"])
+    L += generate_round6(bdir, t_number, vals["tString"], vals["ms"], vals["od"], vals)
     return "\n\n".join(L) + "\n"
